@@ -39,15 +39,18 @@ func NewXModel(a, i time.Duration, maxRetries int) *XModel {
 func (m *XModel) Ingest(fi int, f FlowDef, r Rec) {
 	x := m.Flows[fi]
 	side := "S"
-	if f.NeedsCorrelation() && r.Side == "D" {
-		side = "D"
+	if f.NeedsCorrelation() && (r.Side == "D" || r.Side == "N" || r.Side == "B") {
+		side = r.Side
 	}
 	if x == nil {
 		m.Flows[fi] = &XFlow{Active: m.Now + m.A, Inactive: m.Now + m.I, Ready: !f.NeedsCorrelation(), FirstSide: side, Sides: map[string]bool{side: true}}
 		return
 	}
 	x.Inactive = m.Now + m.I
-	if !x.Ready && side != x.FirstSide {
+	// two records are from the same node when both are source-node records or both are
+	// destination-node records; a record that names neither Pod, or both, is from the same node as
+	// nothing, itself included
+	if !x.Ready && (side != x.FirstSide || side == "N" || side == "B") {
 		x.Ready = true
 	}
 	x.Sides[side] = true
